@@ -11,7 +11,12 @@ question and is NOT decided; decided:
        and the formal/actual argument name maps are keyed by Name, never by String;
  (ii)  inserting @debug / @warn: in both interpreters of sass::Item the Debug and Warn arms
        evaluate their value and print to stderr, and do nothing else — no definition, no output
-       item, no scope change.
+       item, no scope change;
+ (iii) moving a fragment into a partial loaded with @import (two necessary conditions): after the items
+       of an imported .scss file were evaluated in their sub-scope, the Import arm hands that scope back
+       with `do_use(.., UseAs::Star, Expose::All)` on every success path — unconditionally; and
+       Scope::expose_star copies every function, variable and mixin of the other scope: its loops have
+       no filter, `continue` or name test.
 """
 import re
 
@@ -96,6 +101,7 @@ def run(ctx, F):
             ctx.ok("F5-tables-keyed-by-name", path, tys[:70])
         else:
             ctx.fail("F5-tables-keyed-by-name", path, f"argument names of {path} are held as `{tys[:80]}`, not as Name")
+    import_copy_back(ctx, F)
     # ---------------------------------------------------------------- (ii) @debug / @warn are neutral
     for path, method in (("output::transform::handle_item", None), ("variablescope::ScopeRef", "eval_body")):
         f = tree.fn(path) if method is None else tree.one_method(path, method)
@@ -123,3 +129,67 @@ def run(ctx, F):
                 ctx.ok("F5-diagnostics-neutral", key, None)
             else:
                 ctx.fail("F5-diagnostics-neutral", key, f"the {kind} arm of {who} " + ("does not print to stderr; " if not prints else "") + (f"also calls {effects}; " if effects else "") + ("assigns state; " if assigns else "") + "inserting @debug/@warn would change the compilation", where=f["path"])
+
+
+def import_copy_back(ctx, F):
+    from lib import sym, cfgutil
+    prog, tree = F.lib, F.ast
+    S = sym.Sym(prog, inline_depth=0)
+    hi = prog.one("output::transform::handle_item")
+    dom = hi.dominators()
+    # the handle_body calls that evaluate the imported items: their scope argument is a ScopeRef::sub local that is
+    # later passed to do_use
+    uses = [(bi, t) for bi, t in hi.calls() if (mir.callee_name(t) or "").endswith("Scope>::do_use")]
+    star = []
+    for bi, t in uses:
+        args = [sym.show(sym.strip_transparent(S.operand(hi, a))) for a in t["args"]]
+        # `&UseAs::Star` / `&Expose::All` are promoted constants in MIR; the call is recognised by its module
+        # argument (the sub-scope the imported items ran in) and the empty namespace
+        if len(args) >= 3 and "ScopeRef>::sub" in args[1] and args[2] in ("''", '""'):
+            star.append((bi, t, args[1]))
+    if len(star) != 1:
+        ctx.anchor_lost("handle_item @import copy-back", f"expected one do_use(<sub scope>, .., UseAs::Star, Expose::All), found {len(star)}")
+    else:
+        ub, ut, mod = star[0]
+        region = None
+        for bi, blk in enumerate(hi.blocks):
+            t = blk["term"]
+            if t["k"] == "switch" and (t.get("of_ty") or "").endswith("item::Item") and len(t["targets"]) >= 8:
+                for _, tg, name in t["targets"]:
+                    if name == "Import":
+                        region = {b for b, ds in dom.items() if tg in ds}
+                break
+        region = region or set()
+        bodies = [bi for bi, t in hi.calls() if bi in region and (mir.callee_name(t) or "").endswith("transform::handle_body") and len(t["args"]) >= 3
+                  and sym.show(sym.strip_transparent(S.operand(hi, t["args"][2]))) == mod]
+        ctx.floor("evaluations of imported items in the Import arm", len(bodies), 1)
+        bad = None
+        for hb in bodies:
+            tt = cfgutil.try_targets(hi, hb)
+            start = tt[0] if tt else hi.blocks[hb]["term"].get("target")
+            # from the success edge of the evaluation, no path may reach the end of this import (unlock_loading) without do_use
+            unlocks = [bi for bi, t in hi.calls() if (mir.callee_name(t) or "").endswith("unlock_loading") and bi in hi.reachable_blocks(start)]
+            reach = hi.reachable_blocks(start, avoid={ub})
+            if any(u in reach for u in unlocks) or (not unlocks and cfgutil.paths_to_return_avoiding(hi, start, {ub})):
+                bad = hb
+        key = "handle_item|@import hands the partial's scope back unconditionally"
+        if bad is None:
+            ctx.ok("F3-import-copy-back", key, {"do_use": ub, "evaluations": bodies})
+        else:
+            ctx.fail("F3-import-copy-back", key, "after the items of an imported .scss file were evaluated, a success path reaches the end of the import without `do_use(.., UseAs::Star, Expose::All)`: what the partial assigned or defined is then lost for the importing file", where=hi.where(bad))
+    es = tree.one_method("variablescope::Scope", "expose_star")
+    loops = [n for n in A.walk(es["body"]) if n.get("e") == "for"]
+    ctx.floor("copy loops of Scope::expose_star", len(loops), 3)
+    filt = []
+    for lp in loops:
+        for x in A.walk(lp["body"]):
+            if x.get("e") in ("if", "match", "continue") or (x.get("e") == "mcall" and x["m"] in ("filter", "skip_while", "take_while", "filter_map", "starts_with", "contains")):
+                filt.append(A.show(x)[:50])
+        for x in A.walk(lp["iter"]):
+            if x.get("e") == "mcall" and x["m"] in ("filter", "skip_while", "take_while", "filter_map", "skip", "take"):
+                filt.append(A.show(x)[:50])
+    key = "Scope::expose_star copies every member"
+    if filt:
+        ctx.fail("F5-expose-star-total", key, f"a copy loop of Scope::expose_star selects among the members ({filt[:2]}): some functions, variables or mixins of an @import-ed partial (or of a module used `as *`) are not visible afterwards", where=es["path"])
+    else:
+        ctx.ok("F5-expose-star-total", key, {"loops": len(loops)})
